@@ -614,6 +614,54 @@ fn run(sc: &Value) -> Value {
     out
 }
 
+/// JSON text with every non-ASCII character escaped (the driver splits the output into lines with Python's
+/// `splitlines`, which also splits at U+2028, U+2029 and U+0085).
+fn ascii_json(v: &Value) -> String {
+    let s = serde_json::to_string(v).expect("serialize");
+    if s.is_ascii() {
+        return s;
+    }
+    let mut out = String::with_capacity(s.len() + 16);
+    for ch in s.chars() {
+        if ch.is_ascii() {
+            out.push(ch);
+        } else {
+            let mut buf = [0u16; 2];
+            for u in ch.encode_utf16(&mut buf) {
+                out.push_str(&format!("\\u{u:04x}"));
+            }
+        }
+    }
+    out
+}
+
+/// A worker thread with a large stack that answers scenarios one by one. It survives panics (caught inside);
+/// when it does not answer in time it is abandoned and replaced.
+fn spawn_worker() -> (mpsc::Sender<Value>, mpsc::Receiver<Value>) {
+    let (tx_in, rx_in) = mpsc::channel::<Value>();
+    let (tx_out, rx_out) = mpsc::channel::<Value>();
+    std::thread::Builder::new()
+        .stack_size(512 << 20)
+        .spawn(move || {
+            while let Ok(sc) = rx_in.recv() {
+                let r = std::panic::catch_unwind(std::panic::AssertUnwindSafe(|| run(&sc)));
+                let v = match r {
+                    Ok(v) => v,
+                    Err(p) => {
+                        let loc = LAST_PANIC.with(|c| c.borrow().clone());
+                        let st = STAGE.with(|c| *c.borrow());
+                        json!({"panic": format!("{} @ {}", panic_message(&p), loc), "stage": st})
+                    }
+                };
+                if tx_out.send(v).is_err() {
+                    break;
+                }
+            }
+        })
+        .expect("spawn");
+    (tx_in, rx_out)
+}
+
 fn main() {
     quiet_panics();
     let args: Vec<String> = std::env::args().collect();
@@ -623,6 +671,7 @@ fn main() {
         Box::new(std::io::BufReader::new(std::io::stdin()))
     };
     let stdout = std::io::stdout();
+    let (mut tx, mut rx) = spawn_worker();
     for line in input.lines() {
         let line = line.expect("read");
         if line.trim().is_empty() {
@@ -637,29 +686,20 @@ fn main() {
         };
         let id = sc.get("id").cloned().unwrap_or(Value::Null);
         let tmo = sc.get("timeout_ms").and_then(Value::as_u64).unwrap_or(20_000);
-        let (tx, rx) = mpsc::channel();
-        let _h = std::thread::Builder::new()
-            .stack_size(512 << 20)
-            .spawn(move || {
-                let r = std::panic::catch_unwind(std::panic::AssertUnwindSafe(|| run(&sc)));
-                let v = match r {
-                    Ok(v) => v,
-                    Err(p) => {
-                        let loc = LAST_PANIC.with(|c| c.borrow().clone());
-                        let st = STAGE.with(|c| *c.borrow());
-                        json!({"panic": format!("{} @ {}", panic_message(&p), loc), "stage": st})
-                    }
-                };
-                let _ = tx.send(v);
-            })
-            .expect("spawn");
+        tx.send(sc).expect("worker alive");
         let mut res = match rx.recv_timeout(Duration::from_millis(tmo)) {
             Ok(v) => v,
-            Err(_) => json!({"hang": true}),
+            Err(_) => {
+                // the worker hangs (or died): abandon it
+                let (t2, r2) = spawn_worker();
+                tx = t2;
+                rx = r2;
+                json!({"hang": true})
+            }
         };
         res["id"] = id;
         let mut lock = stdout.lock();
-        serde_json::to_writer(&mut lock, &res).expect("write");
+        lock.write_all(ascii_json(&res).as_bytes()).expect("write");
         lock.write_all(b"\n").expect("write");
         lock.flush().expect("flush");
     }
